@@ -74,12 +74,13 @@ def move_exprs(m):
     v = m["v"]
     if v == "equiv":
         return [x for mm in list(m["lhs"]) + list(m["rhs"]) for x in move_exprs(mm)]
+    # trace-level failures (TraceMeta) carry abstract moves: the verb name only
     if v in ("mutate", "summarize"):
-        return [kv["e"] for kv in m["kv"]]
+        return [kv["e"] for kv in m.get("kv", [])]
     if v == "filter":
-        return list(m["ps"])
+        return list(m.get("ps", []))
     if v == "arrange":
-        return [o["e"] for o in m["os"]]
+        return [o["e"] for o in m.get("os", [])]
     if v == "join":
         return [x for x in m.get("on", []) if x.get("k") != "str"]
     return []
@@ -89,6 +90,8 @@ def move_tags(m, in_obs=None):
     """tags of one move; in_obs: observation of its (left) input table, if known"""
     v = m["v"]
     tags = {"v:" + v}
+    if set(m) <= {"v", "i"}:        # abstract move of a trace-level failure: the verb name is all there is
+        return tags
     vis_ids = set(in_obs["ids"]) if in_obs else None
     names = list(in_obs["names"]) if in_obs else None
     for e in move_exprs(m):
@@ -126,7 +129,7 @@ def move_tags(m, in_obs=None):
                 tags.add("arrange:desc")
             tags.add("arrange:nulls_" + o["nl"])
     if v == "join":
-        tags.add("join:" + m["how"])
+        tags.add("join:" + m.get("how", "cross"))
     if v == "union" and m.get("distinct"):
         tags.add("union:distinct")
     if v == "alias":
